@@ -450,11 +450,14 @@ func (ssc *defaultStatefulSetControl) updateStatefulSet(
 			if err := ssc.podControl.DeleteStatefulPod(set, replicas[i]); err != nil {
 				return &status, err
 			}
-			if getPodRevision(replicas[i]) == currentRevision.Name {
-				status.CurrentReplicas--
-			}
-			if getPodRevision(replicas[i]) == updateRevision.Name {
-				status.UpdatedReplicas--
+			// a terminating pod was not counted as a current or updated replica
+			if !isTerminating(replicas[i]) {
+				if getPodRevision(replicas[i]) == currentRevision.Name {
+					status.CurrentReplicas--
+				}
+				if getPodRevision(replicas[i]) == updateRevision.Name {
+					status.UpdatedReplicas--
+				}
 			}
 			status.Replicas--
 			replicas[i] = newVersionedStatefulSetPod(
@@ -585,7 +588,10 @@ func (ssc *defaultStatefulSetControl) updateStatefulSet(
 				set.Name,
 				replicas[target].Name)
 			err := ssc.podControl.DeleteStatefulPod(set, replicas[target])
-			status.CurrentReplicas--
+			// only a pod at the current revision was counted as a current replica
+			if getPodRevision(replicas[target]) == currentRevision.Name {
+				status.CurrentReplicas--
+			}
 			return &status, err
 		}
 
